@@ -109,5 +109,19 @@ def _install():
     ACTIVE.append("UnicodeEncodeError(...) accepts a symbolic object: a dummy string of the realised length is substituted, start/end are kept "
                   "(the C constructor rejects proxies); e.object is therefore never inspected by an oracle")
 
+    # -- 5. str.expandtabs: CrossHair models it as replace("\t", " " * n), which is not what CPython does ---
+    def _expandtabs(self, tabsize=8):
+        with _NT():
+            concrete = realize(self)
+            ts = realize(tabsize)
+        return concrete.expandtabs(ts)
+
+    try:
+        builtinslib.AnySymbolicStr.expandtabs = _expandtabs
+        ACTIVE.append("symbolic str.expandtabs realises the string and calls CPython's (CrossHair's model treats a tab as a fixed number of blanks; "
+                      "found when a seeded change using expandtabs() was wrongly confirmed)")
+    except Exception:
+        pass
+
 
 _install()
